@@ -190,7 +190,10 @@ func oneOp(ps *poolsim.PS, r *mon.Rand, allowChainOps bool) {
 			return
 		}
 		for _, d := range v.Descs {
-			ps.F.Pool.RemoveTransaction(d.Tx, r.Bool())
+			// removeRedeemers=false is only meaningful for a transaction that has just been confirmed (its
+			// outputs are then in the chain; the netsync handler uses it that way); an explicit eviction must
+			// take the descendants along
+			ps.F.Pool.RemoveTransaction(d.Tx, true)
 			break
 		}
 		ps.K.Count("op.remove", 1)
